@@ -1,0 +1,32 @@
+//go:build verif
+
+// Contracts checked by /verif/govc (comment-only; compiled only with -tags verif).
+package witness
+
+//@ spec func knownVec(v any) bool = typeIs(v, "ecc/bn254/fr.Vector") || typeIs(v, "ecc/bls12-377/fr.Vector") || typeIs(v, "ecc/bls12-381/fr.Vector") || typeIs(v, "ecc/bw6-761/fr.Vector") || typeIs(v, "ecc/bls24-317/fr.Vector") || typeIs(v, "ecc/bls24-315/fr.Vector") || typeIs(v, "ecc/bw6-633/fr.Vector") || typeIs(v, "tinyfield.Vector") || typeIs(v, "babybear.Vector") || typeIs(v, "koalabear.Vector")
+
+// the container invariant: the header counts describe the vector
+//@ spec func wfW(w *witness) bool = int(w.nbPublic) + int(w.nbSecret) == dynlen(w.vector)
+
+//@ contract (*witness).ReadFrom
+//@   props C07 C08
+//@   requires w != nil && knownVec(w.vector)
+//@   nopanic
+//@   ensures @header-matches-payload err == nil ==> wfW(w)
+//@   ensures @type-kept knownVec(w.vector)
+
+//@ contract (*witness).UnmarshalBinary
+//@   props C07 C08
+//@   requires w != nil && knownVec(w.vector)
+//@   nopanic
+//@   ensures @header-matches-payload result == nil ==> wfW(w)
+
+//@ contract (*witness).Public
+//@   props C07 C08
+//@   requires w != nil && knownVec(w.vector) && wfW(w)
+//@   nopanic
+
+//@ contract (*witness).WriteTo
+//@   props C08
+//@   requires w != nil && knownVec(w.vector)
+//@   nopanic
